@@ -2,21 +2,47 @@ mod backend;
 mod canon;
 mod client;
 mod detrand;
+mod props;
 mod rng;
 mod run;
+mod runner;
 mod sched;
 mod transport;
 mod world;
 
 use client::ClientOp;
+use props::Tier;
 use run::{NoMonitor, RunSpec};
 use sched::SchedSpec;
 use world::RunCfg;
 
+fn seed_from_env() -> u64 {
+    std::env::var("VERIF_SEED").ok().and_then(|s| s.parse().ok()).unwrap_or(1)
+}
+
+fn tier_of(s: Option<&String>) -> Tier {
+    let t = s.cloned().or_else(|| std::env::var("VERIF_TIER").ok()).unwrap_or_else(|| "quick".into());
+    if t == "thorough" { Tier::Thorough } else { Tier::Quick }
+}
+
 fn main() {
     std::panic::set_hook(Box::new(|_| {}));
     let args: Vec<String> = std::env::args().collect();
-    match args.get(1).map(|s| s.as_str()) {
+    let code = match args.get(1).map(|s| s.as_str()) {
+        Some("check") => {
+            let prop = args.get(2).expect("property id");
+            runner::check_main(prop, tier_of(args.get(3)), seed_from_env())
+        }
+        Some("child") => {
+            let prop = args.get(2).expect("property id");
+            let tier = tier_of(args.get(3));
+            let seed: u64 = args[4].parse().unwrap();
+            let shard: usize = args[5].parse().unwrap();
+            let nshards: usize = args[6].parse().unwrap();
+            runner::child_main(prop, tier, seed, shard, nshards);
+            0
+        }
+        Some("replay") => runner::replay_main(args.get(2).expect("replay file")),
         Some("smoke") => {
             let src = args.get(2).cloned().unwrap_or_else(|| "p = @{ 42 }, !p".to_string());
             let seed: u64 = args.get(3).and_then(|s| s.parse().ok()).unwrap_or(1);
@@ -29,11 +55,18 @@ fn main() {
             let sched = if seed == 0 { SchedSpec::fair() } else { SchedSpec::draw(&mut rng, nworkers, true, 200) };
             let spec = RunSpec { cfg, ops, modules: vec![], sched, seed, replay: None, est_len: 200, tail_bound: 0 };
             let (r, _) = run::execute_isolated(spec, NoMonitor, true, seed);
-            for l in r.log.as_ref().unwrap() {
-                println!("{l}");
+            if std::env::var("QSIM_LOG").is_ok() {
+                for l in r.log.as_ref().unwrap() {
+                    println!("{l}");
+                }
             }
             println!("end={:?} steps={} outs={:?}\nprocs={:?}\nfailure={:?} hash={:x}", r.end, r.steps, r.outs, r.procs, r.failure, r.log_hash);
+            0
         }
-        _ => eprintln!("usage: qsim smoke <src> [seed] [workers]"),
-    }
+        _ => {
+            eprintln!("usage: qsim check <PROP> [quick|thorough] | replay <file> | smoke <src> [seed] [workers]");
+            2
+        }
+    };
+    std::process::exit(code);
 }
